@@ -129,7 +129,9 @@ def judge(family, case, rec):
     A0 = A.copy()
     try:
         model = sempler.ANM(A, assigns, noises)
-        Xs = model.sample(n, do_interventions=do, shift_interventions=shift, noise_interventions=noise, random_state=case["rs"])
+        if case["cseed"] % 3 == 0:
+            do = {np.int64(k): v for k, v in do.items()}
+        Xs = model.sample(np.int64(n) if case["cseed"] % 4 == 0 else n, do_interventions=do, shift_interventions=shift, noise_interventions=noise, random_state=case["rs"])
     except Exception as e:
         rec.exception_violation("C02:exception-" + type(e).__name__, family, case, "ANM construction / sampling raised %s" % type(e).__name__, e)
         return
